@@ -67,11 +67,11 @@ inductive Shape (C : Checker A) (d : Dir A) (n : Nat) (es : List Edit) : List (A
   | resumed (a1) : completeActs d n = some a1 → d.vM = some n → Shape C d n es (a1, .ok)
   /-- complete whatever was pending, then the entry does not pass (or is not ready) -/
   | stopped (a1 st) : completeActs d n = some a1 → d.vM ≠ some n → st ≠ .ok →
-      ((run d a1).vstrs ≠ [] ∨ ∀ o names, C.check (run d a1).vO es = some o → plan es = some names →
+      ((run d a1).vstrs ≠ [] ∨ ∀ o names, checkAll C (run d a1) es = some o → plan C.asWas (laterRm (run d a1) n) es = some names →
         ∃ x, x ∈ names ∧ x ∉ (run d a1).trash) → Shape C d n es (a1, st)
   /-- complete whatever was pending, check the entry, log the intent, complete it -/
   | processed (a1 o names) : completeActs d n = some a1 → d.vM ≠ some n → (run d a1).vstrs = [] →
-      C.check (run d a1).vO es = some o → plan es = some names → (∀ x, x ∈ names → x ∈ (run d a1).trash) →
+      checkAll C (run d a1) es = some o → plan C.asWas (laterRm (run d a1) n) es = some names → (∀ x, x ∈ names → x ∈ (run d a1).trash) →
       Shape C d n es (a1 ++ Act.intent n es names o :: completeList ((run d a1).apply (Act.intent n es names o)) n n, .ok)
 
 theorem find?_none_all {α : Type} (p : α → Bool) : ∀ (l : List α), l.find? p = none → ∀ x, x ∈ l → p x = false
@@ -100,10 +100,10 @@ theorem processOne_shape (C : Checker A) (d : Dir A) (n : Nat) (es : List Edit) 
       · rw [if_pos hv]; exact Shape.stopped a1 _ h1 hm (by decide) (Or.inl hv)
       · rw [if_neg hv]
         have hv' : (run d a1).vstrs = [] := Classical.not_not.mp hv
-        cases hc : C.check (run d a1).vO es with
+        cases hc : checkAll C (run d a1) es with
         | none => exact Shape.stopped a1 _ h1 hm (by decide) (Or.inr (fun o names h _ => by rw [hc] at h; cases h))
         | some o =>
-          cases hp : plan es with
+          cases hp : plan C.asWas (laterRm (run d a1) n) es with
           | none => exact Shape.stopped a1 _ h1 hm (by decide) (Or.inr (fun o names _ h => by rw [hp] at h; cases h))
           | some names =>
             simp only
@@ -136,8 +136,8 @@ def Legal (C : Checker A) (d : Dir A) : Act A → Prop
   | .unlinkFrag n => d.vM = some n
   | .unlinkTrash x => x ∈ d.vstrs
   | .clear => True
-  | .intent _ es names o =>
-    d.vstrs = [] ∧ C.check d.vO es = some o ∧ plan es = some names ∧ ∀ x, x ∈ names → x ∈ d.trash
+  | .intent n es names o =>
+    d.vstrs = [] ∧ checkAll C d es = some o ∧ plan C.asWas (laterRm d n) es = some names ∧ ∀ x, x ∈ names → x ∈ d.trash
 
 def LegalRun (C : Checker A) : Dir A → List (Act A) → Prop
   | _, [] => True
@@ -306,13 +306,27 @@ theorem pass_intents_are_entries (C : Checker A) (d : Dir A) (n : Nat) (es : Lis
     (h : Act.intent n es names o ∈ (pass C d).1) : (n, es) ∈ d.frags.dropLast :=
   intents_of_passFrom C _ d n es names o h
 
+theorem checkAll_some (C : Checker A) (d : Dir A) (es : List Edit) (o : A) (h : checkAll C d es = some o) :
+    C.check d.vO es = some o := by
+  unfold checkAll at h
+  by_cases hr : readable d es = true
+  · rw [if_pos hr] at h; exact h
+  · rw [if_neg hr] at h; cases h
+
+theorem checkAll_readable (C : Checker A) (d : Dir A) (es : List Edit) (o : A) (h : checkAll C d es = some o) :
+    readable d es = true := by
+  unfold checkAll at h
+  by_cases hr : readable d es = true
+  · exact hr
+  · rw [if_neg hr] at h; cases h
+
 /-! ### the logged names are justified -/
 
 /-- every name logged in `verify/` is one the plan of a fragment names whose intent was logged
     under the number `M` holds, and every fragment whose intent was ever logged passed the check
     against the accumulator of that moment -/
 def Justified (C : Checker A) (d : Dir A) : Prop :=
-  (∀ x, x ∈ d.vstrs → ∃ n es a names, d.vM = some n ∧ (n, es, a) ∈ d.done ∧ plan es = some names ∧ x ∈ names) ∧
+  (∀ x, x ∈ d.vstrs → ∃ n es a names later, d.vM = some n ∧ (n, es, a) ∈ d.done ∧ plan C.asWas later es = some names ∧ x ∈ names) ∧
   (∀ t, t ∈ d.done → (C.check t.2.2 t.2.1).isSome = true)
 
 theorem justified_apply (C : Checker A) (d : Dir A) (a : Act A) (hj : Justified C d) (hl : Legal C d a) :
@@ -328,14 +342,14 @@ theorem justified_apply (C : Checker A) (d : Dir A) (a : Act A) (hj : Justified 
       have hx' : x ∈ names.foldl (fun acc x => insertStr x acc) d.vstrs := hx
       rw [hv] at hx'
       rcases Blue.Orphans.mem_foldl_insertStr names [] hx' with h | h
-      · exact ⟨n, es, d.vO, names, rfl, List.mem_append_right _ List.mem_cons_self, hp, h⟩
+      · exact ⟨n, es, d.vO, names, laterRm d n, rfl, List.mem_append_right _ List.mem_cons_self, hp, h⟩
       · cases h
     · intro t ht
       rcases List.mem_append.mp ht with h | h
       · exact hj.2 t h
       · rcases List.mem_singleton.mp h with rfl
         show (C.check d.vO es).isSome = true
-        rw [hc]; rfl
+        rw [checkAll_some C d es o hc]; rfl
 
 theorem justified_run (C : Checker A) : ∀ (acts : List (Act A)) (d : Dir A), Justified C d → LegalRun C d acts →
     Justified C (run d acts)
@@ -346,14 +360,14 @@ theorem justified_run (C : Checker A) : ∀ (acts : List (Act A)) (d : Dir A), J
     log carries the number of a fragment whose plan names it, and that fragment passed the check -/
 theorem unlinks_justified (C : Checker A) : ∀ (acts : List (Act A)) (d : Dir A), Justified C d → LegalRun C d acts →
     ∀ i x, acts[i]? = some (Act.unlinkTrash x) →
-      ∃ n es a names, (run d (acts.take i)).vM = some n ∧ (n, es, a) ∈ (run d (acts.take i)).done
-        ∧ plan es = some names ∧ x ∈ names ∧ (C.check a es).isSome = true
+      ∃ n es a names later, (run d (acts.take i)).vM = some n ∧ (n, es, a) ∈ (run d (acts.take i)).done
+        ∧ plan C.asWas later es = some names ∧ x ∈ names ∧ (C.check a es).isSome = true
   | [], _, _, _, i, x, h => by simp at h
   | a :: as, d, hj, hl, 0, x, h => by
     simp only [List.getElem?_cons_zero, Option.some.injEq] at h
     subst h
-    obtain ⟨n, es, a, names, h1, h2, h3, h4⟩ := hj.1 x hl.1
-    exact ⟨n, es, a, names, h1, h2, h3, h4, hj.2 _ h2⟩
+    obtain ⟨n, es, a, names, later, h1, h2, h3, h4⟩ := hj.1 x hl.1
+    exact ⟨n, es, a, names, later, h1, h2, h3, h4, hj.2 _ h2⟩
   | a :: as, d, hj, hl, i + 1, x, h => by
     simp only [List.getElem?_cons_succ] at h
     exact unlinks_justified C as _ (justified_apply C d a hj hl.1) hl.2 i x h
@@ -374,8 +388,8 @@ theorem reach_justified (C : Checker A) (d : Dir A) (h : Reach C d) : Justified 
   | fresh d hv _ hd => exact ⟨fun x hx => (by rw [hv] at hx; cases hx), fun t ht => (by rw [hd] at ht; cases ht)⟩
   | env d d' _ hv hm _ hd ih =>
     refine ⟨fun x hx => ?_, fun t ht => ih.2 t (hd ▸ ht)⟩
-    obtain ⟨n, es, a, names, h1, h2, h3, h4⟩ := ih.1 x (hv ▸ hx)
-    exact ⟨n, es, a, names, hm ▸ h1, hd ▸ h2, h3, h4⟩
+    obtain ⟨n, es, a, names, later, h1, h2, h3, h4⟩ := ih.1 x (hv ▸ hx)
+    exact ⟨n, es, a, names, later, hm ▸ h1, hd ▸ h2, h3, h4⟩
   | crashed d k _ ih => exact justified_run C _ d ih (legalRun_take C k _ d (pass_legal C d))
 
 /-! ### what a plan names -/
@@ -417,9 +431,44 @@ theorem mem_editLogs : ∀ (es : List Edit) (l : List Name), editLogs es = some 
           · obtain ⟨e', he', r⟩ := mem_editLogs t l' ht x hx
             exact ⟨e', List.mem_cons_of_mem _ he', r⟩
 
+theorem mem_removedBy {e : Edit} {r : Name} (h : r ∈ removedBy e) : r ∈ e.rm ∧ r ∉ e.add := by
+  unfold removedBy at h
+  rw [List.mem_filter] at h
+  refine ⟨h.1, fun hadd => ?_⟩
+  have : e.add.contains r = true := List.contains_iff_mem.mpr hadd
+  rw [this] at h; exact absurd h.2 (by decide)
+
+theorem trashSst_inj {r r' : Name} (h : trashSst r = trashSst r') : r = r' :=
+  List.append_cancel_right h
+
+/-- what the repaired list holds: a removal of some edit of the fragment that no later edit of the
+    fragment and nothing in `later` repeats -/
+theorem mem_fragSstsLast (later : List Name) : ∀ (es : List Edit) (x : Name), x ∈ fragSstsLast later es →
+    ∃ pre e post r, es = pre ++ e :: post ∧ r ∈ removedBy e ∧ x = trashSst r ∧ r ∉ later ∧ ∀ e', e' ∈ post → r ∉ removedBy e'
+  | [], x, h => by cases h
+  | e :: t, x, h => by
+    have hunf : fragSstsLast later (e :: t) =
+        ((removedBy e).filter (fun r => !(t.flatMap removedBy).contains r && !later.contains r)).map trashSst
+          ++ fragSstsLast later t := rfl
+    rw [hunf] at h
+    rcases List.mem_append.mp h with h | h
+    · obtain ⟨r, hr, rfl⟩ := List.mem_map.mp h
+      rw [List.mem_filter, Bool.and_eq_true] at hr
+      refine ⟨[], e, t, r, rfl, hr.1, rfl, ?_, ?_⟩
+      · intro hl
+        have : later.contains r = true := List.contains_iff_mem.mpr hl
+        rw [this] at hr; exact absurd hr.2.2 (by decide)
+      · intro e' he' hr'
+        have : (t.flatMap removedBy).contains r = true :=
+          List.contains_iff_mem.mpr (List.mem_flatMap.mpr ⟨e', he', hr'⟩)
+        rw [this] at hr; exact absurd hr.2.1 (by decide)
+    · obtain ⟨pre, e0, post, r, h1, h2, h3, h4, h5⟩ := mem_fragSstsLast later t x h
+      exact ⟨e :: pre, e0, post, r, by rw [h1]; rfl, h2, h3, h4, h5⟩
+
 /-- a name in the plan of a fragment is the trash name of a file some edit of the fragment removes
     and does not add itself, or of the log an edit other than the first names in its `L` field -/
-theorem mem_plan (es : List Edit) (names : List Name) (h : plan es = some names) (x : Name) (hx : x ∈ names) :
+theorem mem_plan (asWas : Bool) (later : List Name) (es : List Edit) (names : List Name)
+    (h : plan asWas later es = some names) (x : Name) (hx : x ∈ names) :
     (∃ e, e ∈ es ∧ ∃ r, r ∈ e.rm ∧ r ∉ e.add ∧ x = trashSst r) ∨
     (∃ e, e ∈ es.drop 1 ∧ ∃ v k, getInfo e 76 = some v ∧ parseU64 v = some k ∧ x = trashLog k) := by
   unfold plan at h
@@ -430,16 +479,88 @@ theorem mem_plan (es : List Edit) (names : List Name) (h : plan es = some names)
     cases h
     rcases List.mem_append.mp hx with hx | hx
     · left
-      unfold fragSsts at hx
-      obtain ⟨e, he, hxe⟩ := List.mem_flatMap.mp hx
-      unfold editSsts at hxe
-      obtain ⟨r, hr, rfl⟩ := List.mem_map.mp hxe
-      rw [List.mem_filter] at hr
-      refine ⟨e, he, r, hr.1, ?_, rfl⟩
-      intro hadd
-      have : e.add.contains r = true := List.contains_iff_mem.mpr hadd
-      rw [this] at hr; exact absurd hr.2 (by decide)
+      cases asWas with
+      | true =>
+        have hx : x ∈ fragSsts es := hx
+        unfold fragSsts at hx
+        obtain ⟨e, he, hxe⟩ := List.mem_flatMap.mp hx
+        unfold editSsts at hxe
+        obtain ⟨r, hr, rfl⟩ := List.mem_map.mp hxe
+        have := mem_removedBy (e := e) (r := r) hr
+        exact ⟨e, he, r, this.1, this.2, rfl⟩
+      | false =>
+        have hx : x ∈ fragSstsLast later es := hx
+        obtain ⟨pre, e, post, r, h1, h2, h3, _, _⟩ := mem_fragSstsLast later es x hx
+        have := mem_removedBy h2
+        exact ⟨e, by rw [h1]; exact List.mem_append_right _ List.mem_cons_self, r, this.1, this.2, h3⟩
     · right
       exact mem_editLogs _ l hl x hx
+
+/-- **as repaired (D-28): the SSTs a plan names are not removed again by anything later** — not by a
+    later edit of the fragment, not by a later fragment, not by `MANIFEST` (`later`).  The one copy of
+    a file that was removed, written again and removed again stays in `trash/` for the checks of the
+    fragments that add it back and remove it again; the last removal's plan names it. -/
+theorem plan_leaves_later_removals (later : List Name) (es : List Edit) (r : Name)
+    (h : trashSst r ∈ fragSstsLast later es) : r ∉ later := by
+  obtain ⟨_, _, _, r', _, _, h3, h4, _⟩ := mem_fragSstsLast later es _ h
+  rw [trashSst_inj h3]; exact h4
+
+theorem trashSst_ne_trashLog (r : Name) (k : Nat) : trashSst r ≠ trashLog k := by
+  intro h
+  have h1 : (trashSst r).getLast? = some 116 := by
+    unfold trashSst sstSuffix
+    rw [List.getLast?_append]; rfl
+  have hne : Nat.toDigits 10 k ≠ [] := Nat.toDigits_ne_nil
+  have h2 : (trashLog k).getLast? = some ((Nat.toDigits 10 k).getLast hne).toNat := by
+    unfold trashLog decimal
+    rw [List.getLast?_append, List.getLast?_map, List.getLast?_eq_some_getLast hne]; rfl
+  rw [h, h2] at h1
+  have hd := Nat.isDigit_of_mem_toDigits (b := 10) (n := k) (by decide) (by decide) (List.getLast_mem hne)
+  have hv : ((Nat.toDigits 10 k).getLast hne).toNat = 116 := by
+    simpa using h1
+  unfold Char.isDigit at hd
+  have : ((Nat.toDigits 10 k).getLast hne).val.toNat = 116 := hv
+  simp only [Bool.and_eq_true, decide_eq_true_eq] at hd
+  have h3 := hd.2
+  rw [UInt32.le_iff_toNat_le] at h3
+  rw [this] at h3
+  exact absurd h3 (by decide)
+
+/-- **as repaired: a logged intent names no SST that a later fragment or `MANIFEST` removes again** -/
+theorem intent_keeps_later (C : Checker A) (hC : C.asWas = false) (d : Dir A) (n : Nat) (es : List Edit)
+    (names : List Name) (o : A) (hl : Legal C d (Act.intent n es names o)) (r : Name) (hr : r ∈ laterRm d n) :
+    trashSst r ∉ names := by
+  obtain ⟨_, _, hp, _⟩ := hl
+  rw [hC] at hp
+  unfold plan at hp
+  cases hlg : editLogs (es.drop 1) with
+  | none => rw [hlg] at hp; cases hp
+  | some l =>
+    rw [hlg] at hp
+    cases hp
+    intro hmem
+    rcases List.mem_append.mp hmem with h | h
+    · exact plan_leaves_later_removals (laterRm d n) es r h hr
+    · obtain ⟨_, _, _, k, _, _, hk⟩ := mem_editLogs _ l hlg _ h
+      exact trashSst_ne_trashLog r k hk
+
+theorem legalRun_at (C : Checker A) : ∀ (acts : List (Act A)) (d : Dir A), LegalRun C d acts →
+    ∀ i a, acts[i]? = some a → Legal C (run d (acts.take i)) a
+  | [], _, _, i, a, h => by simp at h
+  | b :: as, d, hl, 0, a, h => by
+    simp only [List.getElem?_cons_zero, Option.some.injEq] at h
+    subst h; exact hl.1
+  | b :: as, d, hl, i + 1, a, h => by
+    simp only [List.getElem?_cons_succ] at h
+    exact legalRun_at C as _ hl.2 i a h
+
+/-- **the verifier keeps the trash a later check needs** (as repaired, D-28): whenever a pass logs
+    an intent for fragment `n`, no name in it is the trash entry of a file that a fragment numbered
+    above `n` or `MANIFEST` removes again — the one copy of a file that was removed, written again
+    under the same name and removed again stays where the checks of those later fragments find it -/
+theorem pass_keeps_needed_trash (C : Checker A) (hC : C.asWas = false) (d : Dir A) (i n : Nat) (es : List Edit)
+    (names : List Name) (o : A) (h : (pass C d).1[i]? = some (Act.intent n es names o)) (r : Name)
+    (hr : r ∈ laterRm (run d ((pass C d).1.take i)) n) : trashSst r ∉ names :=
+  intent_keeps_later C hC _ n es names o (legalRun_at C _ d (pass_legal C d) i _ h) r hr
 
 end Blue.Verifier
